@@ -24,7 +24,7 @@ Proof. exists (ctx_init 0), 5152. vm_compute. repeat split; discriminate. Qed.
 (* (b) previous_word survives null padding: (R) 0000 (R) shows one character *)
 Definition w_padding : list string := [ln "00:00:10:00" "1420 142e 1470 1130 0000 1130 142f"].
 Theorem C08_previous_word_survives_padding_refuted :
-  model_vs_S dev0 0 0 w_padding <> None /\ model_vs_S (mkDev true false false false false) 1 0 w_padding = None.
+  model_vs_S dev0 0 0 w_padding <> None /\ model_vs_S (mkDev true false false false false false) 1 0 w_padding = None.
 Proof. decide_stream. Qed.
 (* ... and other-channel words: after RCL, a channel-2 RCL and RCL again, the second RCL is dropped as a copy and the
    channel stays 2 (following characters are lost); the unconditional channel-filter equation fails *)
@@ -45,7 +45,7 @@ Proof. decide_stream. Qed.
 (* (d) roll-up base row forced to 15 *)
 Definition w_base : list string := [ln "00:00:10:00" "1425 142d 1670 4142"].
 Theorem C08_rollup_base_row_forced_15_refuted :
-  model_vs_S dev0 2 0 w_base <> None /\ model_vs_S (mkDev false true false false false) 2 0 w_base = None.
+  model_vs_S dev0 2 0 w_base <> None /\ model_vs_S (mkDev false true false false false false) 2 0 w_base = None.
 Proof. decide_stream. Qed.
 
 (* (e) paint-on paragraph attached to a region that starts above it *)
@@ -57,19 +57,19 @@ Proof. vm_compute. split; [discriminate|split; reflexivity]. Qed.
 (* mid-row italics resets the colour *)
 Definition w_italics : list string := [ln "00:00:10:00" "1420 142e 1462 4142 112e 4344 142f"].
 Theorem C08_midrow_italics_resets_colour_refuted :
-  model_vs_S dev0 0 0 w_italics <> None /\ model_vs_S (mkDev false false true false false) 0 0 w_italics = None.
+  model_vs_S dev0 0 0 w_italics <> None /\ model_vs_S (mkDev false false true false false false) 0 0 w_italics = None.
 Proof. decide_stream. Qed.
 
 (* paint-on PAC erases the row it addresses *)
 Definition w_clears : list string := [ln "00:00:10:00" "1429 1550 4142 4344 4546 1556 5859"].
 Theorem C08_painton_pac_clears_row_refuted :
-  model_vs_S dev0 2 2 w_clears <> None /\ model_vs_S (mkDev false false false true false) 0 0 w_clears = None.
+  model_vs_S dev0 2 2 w_clears <> None /\ model_vs_S (mkDev false false false true false false) 0 0 w_clears = None.
 Proof. decide_stream. Qed.
 
 (* DER is ignored *)
 Definition w_der : list string := [ln "00:00:10:00" "1420 142e 1550 4142 4344 4546 4748 1552 1424 142f"].
 Theorem C08_der_ignored_refuted :
-  model_vs_S dev0 2 2 w_der <> None /\ model_vs_S (mkDev false false false false true) 0 0 w_der = None.
+  model_vs_S dev0 2 2 w_der <> None /\ model_vs_S (mkDev false false false false true false) 0 0 w_der = None.
 Proof. decide_stream. Qed.
 
 (* paint-on: a pair of characters ending in a space right after a PAC stays unstyled *)
@@ -98,6 +98,12 @@ Definition w_row0 : list string :=
 Theorem C08_rollup_text_after_edm_row0_refuted : model_vs_S dev0 2 2 w_row0 <> None /\ model_vs_S dev_all 2 2 w_row0 <> None.
 Proof. vm_compute. split; discriminate. Qed.
 
+(* a carriage return in pop-on mode erases the displayed caption *)
+Definition w_cr : list string := [ln "00:00:10:00" "1420 142e 1470 4142 142f"; ln "00:00:13:10" "142d"].
+Theorem C08_cr_erases_non_rollup_caption_refuted :
+  model_vs_S dev0 2 2 w_cr <> None /\ model_vs_S (mkDev false false false false false true) 0 0 w_cr = None.
+Proof. decide_stream. Qed.
+
 (* the triggers of Spec/Cea608Screen.v fire on their witnesses *)
 Theorem C08_triggers_fire :
   Z.land (triggers (slines_of w_doubled)) tDUP <> 0 /\ Z.land (triggers (slines_of w_padding)) tPADDUP <> 0 /\
@@ -105,7 +111,8 @@ Theorem C08_triggers_fire :
   Z.land (triggers (slines_of w_italics)) tITAL <> 0 /\ Z.land (triggers (slines_of w_clears)) tCLEAR <> 0 /\
   Z.land (triggers (slines_of w_der)) tDER <> 0 /\ Z.land (triggers (slines_of w_space)) tSPACE <> 0 /\
   Z.land (triggers (slines_of w_over)) tOVER <> 0 /\ Z.land (triggers (slines_of w_left)) tNEGCUR <> 0 /\
-  Z.land (triggers (slines_of w_right)) tCLAMP <> 0 /\ Z.land (triggers (slines_of w_row0)) tROW0 <> 0.
+  Z.land (triggers (slines_of w_right)) tCLAMP <> 0 /\ Z.land (triggers (slines_of w_row0)) tROW0 <> 0 /\
+  Z.land (triggers (slines_of w_cr)) tCR <> 0.
 Proof. vm_compute. repeat split; discriminate. Qed.
 
 Print Assumptions C08_doubled_code_no_frame_refuted.  Print Assumptions C08_doubled_frame_refuted.
@@ -115,4 +122,5 @@ Print Assumptions C08_region_above_attached_refuted.  Print Assumptions C08_midr
 Print Assumptions C08_painton_pac_clears_row_refuted.  Print Assumptions C08_der_ignored_refuted.
 Print Assumptions C08_painton_space_word_unstyled_refuted.  Print Assumptions C08_overwrite_keeps_element_style_refuted.
 Print Assumptions C08_pac_left_of_row_content_refuted.  Print Assumptions C08_pac_right_of_row_content_refuted.
-Print Assumptions C08_rollup_text_after_edm_row0_refuted.  Print Assumptions C08_triggers_fire.
+Print Assumptions C08_rollup_text_after_edm_row0_refuted.  Print Assumptions C08_cr_erases_non_rollup_caption_refuted.
+Print Assumptions C08_triggers_fire.
